@@ -9,7 +9,7 @@ from ..core import shim as shim_mod
 PROPERTY = "C15"
 LEVEL = "exploration"
 RULE = ("every BenchmarkFunction with a scalar documented optimum x every listed dimension x box lattice (L levels per axis incl. "
-        "both bounds: 41/21/9/5/5/3 for d=1/2/3/4/5/10, 3 for d=6..8; for d=16, 20, 30 only corners and centre) plus the documented optimum, optimum +- h*e_i (h = 1e-3, 1e-2 of the width, "
+        "both bounds: 41/21/9/5/5/3 for d=1/2/3/4/5/10, 3 for d=6..8; for every other d up to 100 (quick: all d<=32, every even d and a few odd ones) only corners and centre) plus the documented optimum, optimum +- h*e_i (h = 1e-3, 1e-2 of the width, "
         "clipped), and the optimum scaled / shifted along the diagonal by 1e-5..1e-2, coordinates as Python floats and (d<=2 and the optimum neighbourhood) numpy float64; four points in a row on one problem object for lists / numpy scalars / numpy arrays (no aliasing, no vector modification, repeatable); XinSheYang3 with every "
         "combination of its uniform draws in {0, .5, 1-2^-53} for d<=3. Non-trivial = a point other than the documented optimum; "
         "distinct = distinct (function, dimension, point, dtype).")
@@ -21,7 +21,7 @@ DIM_FUNCS = ["Rosenbrock", "Ackley", "Sphere", "Schwefel", "ModifiedEasom", "Equ
 FIXED_FUNCS = ["SixHump", "Schubert", "Booth", "GramacyLee"]
 ROBUST_FUNCS = ["Synthetic1D", "Synthetic2D", "Synthetic5D", "Synthetic10D"]
 LEVELS = {1: 41, 2: 21, 3: 9, 4: 5, 5: 5, 6: 3, 7: 3, 8: 3, 10: 3}
-HIGH_DIMS = (16, 20, 30)       # only the documented optimum, its neighbourhood, the two corners and the centre of the box
+HIGH_DIMS = tuple(d for d in range(9, 101) if d != 10)   # only the documented optimum, its neighbourhood, the two corners and the centre
 TOL = 1e-3
 
 _cache = {}
@@ -115,8 +115,10 @@ def check_sequence(name, dim, kind):
     p = get_problem(name, dim)
     d = len(p.parameters)
     pts = []
+    span = 1.0 if d <= 30 else 0.02       # high dimensions: stay near the centre (see the note on corners below)
     for j in range(4):
-        pts.append(tuple(par['bounds'][0] + (par['bounds'][1] - par['bounds'][0]) * (((3 * i + 5 * j) % 7) / 6.0) for i, par in enumerate(p.parameters)))
+        pts.append(tuple((par['bounds'][0] + par['bounds'][1]) / 2.0 + span * (par['bounds'][1] - par['bounds'][0]) * ((((3 * i + 5 * j) % 7) / 6.0) - 0.5)
+                         for i, par in enumerate(p.parameters)))
     out = []
     kept = []
     sh = shim_mod.SHIM
@@ -129,7 +131,12 @@ def check_sequence(name, dim, kind):
             snap = [float(v) for v in r1]
             after = [float(v) for v in ind.vector]
             sh.reset(1, _ForcedUnit([0.5] * 64))
-            r2 = [float(v) for v in p.evaluate(ind)]
+            try:
+                r1.append(99.0)          # the caller extends / overwrites the list it was given (WorstCaseEvaluator does)
+                r1[0] = -77.0
+            except Exception:
+                pass
+            r2 = [float(v) for v in p.evaluate(Individual(list(vec) if not hasattr(vec, "copy") else vec.copy()))]
         except Exception as e:
             return [("C15:%s:sequence:exception:%s:%s" % (name, type(e).__name__, kind), "%s(dimension=%r) at %r (%s) raised %r" % (name, dim, x, kind, e))]
         finally:
@@ -138,7 +145,7 @@ def check_sequence(name, dim, kind):
             out.append(("C15:%s:evaluate-modifies-the-vector" % name, "%s(dimension=%r): vector %r became %r (%s)" % (name, dim, x, after, kind)))
         if r2 != snap:
             out.append(("C15:%s:second-evaluation-differs" % name, "%s(dimension=%r) at %r: %r then %r (%s)" % (name, dim, x, snap, r2, kind)))
-        kept.append((x, r1, snap))
+        kept.append((x, r1, ([-77.0] + snap[1:] + [99.0]) if isinstance(r1, list) else snap))
     for x, obj, snap in kept:
         if [float(v) for v in obj] != snap:
             out.append(("C15:%s:earlier-result-overwritten" % name, "%s(dimension=%r): result for %r was %r, reads %r after later evaluations" % (
@@ -198,8 +205,10 @@ def _shard(shard, col: Collector):
     firsts = axes[0] if first_idx is None else [axes[0][first_idx]]
     if d in HIGH_DIMS:
         firsts = []
-        for x in (tuple(par['bounds'][0] for par in p.parameters), tuple(par['bounds'][1] for par in p.parameters),
-                  tuple((par['bounds'][0] + par['bounds'][1]) / 2.0 for par in p.parameters)):
+        # corners only up to d = 30: beyond that the true value of some functions at a corner (Perm: d**(2d)) exceeds the
+        # float range, which is a property of the mathematics, not of the code
+        corner_pts = [tuple(par['bounds'][0] for par in p.parameters), tuple(par['bounds'][1] for par in p.parameters)] if d <= 30 else []
+        for x in corner_pts + [tuple((par['bounds'][0] + par['bounds'][1]) / 2.0 for par in p.parameters)]:
             for as_numpy in (False, True):
                 col.case()
                 col.nontrivial((name, dim, x, as_numpy))
@@ -244,8 +253,11 @@ def replay(sub, case):
 def run(tier, seed):
     shards = []
     for name in DIM_FUNCS:
-        for dim in (5, 6, 7, 8) + HIGH_DIMS:
+        for dim in (5, 6, 7, 8):
             shards.append((name, dim, None))
+        for dim in HIGH_DIMS:
+            if tier == "thorough" or dim <= 32 or dim % 2 == 0 or dim in (57, 59, 63, 65, 81, 99):
+                shards.append((name, dim, None))
         for dim in (1, 2, 3, 4, 10):
             if dim == 10:
                 for i in range(3):
